@@ -6,6 +6,7 @@ import (
 	"regexp"
 	"sort"
 	"strings"
+	"sync"
 	"unsafe"
 
 	"github.com/krotik/ecal/engine"
@@ -302,5 +303,196 @@ func init() {
 				}
 			}
 			c.Sample("3 sinks on test.* + sinks on test.a and test.b; match test.a, test.b, test.a: same sinks, index snapshot unchanged")
+		}})
+}
+
+// ---------------------------------------------------------------------------
+// Differential isolation oracle (sequential): what an invocation observes and
+// the error it records must not depend on whether the same sink (and the
+// functions it calls) ran before for another event. Event 2 is processed once
+// on a fresh interpreter and once after event 1; the observations made for
+// event 2 and its error report must be identical. None of the bodies writes a
+// global variable, so every difference is state that leaked from one
+// invocation into the next: a memoised value, a default parameter evaluated
+// once, a cache keyed too coarsely, a scratch buffer on a shared node.
+
+var c11IsoDefs = `func withDefaults(id, rec={}, l=[], n=0) {
+  let seen := [rec.id, len(l), n]
+  rec.id := id
+  l := add(l, id)
+  n := n + id
+  return [seen, rec.id, len(l), n]
+}
+func mkCounter() {
+  let c := 0
+  return func () {
+    c := c + 1
+    return c
+  }
+}
+func fail(id) {
+  raise("E{{id}}", "detail {{id}}", [id])
+}
+Template := {
+  "id": 0,
+  "init": func (i) {
+    this.id := i
+  },
+  "get": func () {
+    return this.id
+  }
+}
+`
+
+var c11IsoBodies = []string{
+	"obs(withDefaults(event.state.id))",
+	"obs(withDefaults(event.state.id, {\"id\": -1}))",
+	"let l := []\n    l := add(l, event.state.id)\n    obs(l)",
+	"let c := mkCounter()\n    obs(c(), c())",
+	"let o := new(Template, event.state.id)\n    obs(o.get())",
+	"obs(\"id {{event.state.id}} {{event.state.id + 1}} {{event.state.id}}\")",
+	"try {\n      fail(event.state.id)\n    } except e {\n      obs(e.type, e.detail, e.data)\n    }",
+	"let s := 0\n    for i in range(1, event.state.id) {\n      s := s + i\n    }\n    obs(s)",
+	"obs(\"a{{event.state.id}}\" like \"a{{event.state.id}}$\", \"a1\" like \"a{{event.state.id}}$\")",
+	"mutex m {\n      obs(event.state.id)\n    }",
+	"obs(event.name, event.kind, event.state)",
+	"if event.state.id == 2 {\n      fail(event.state.id)\n    }\n    obs(\"not failed\")",
+	"fail(event.state.id)",
+	"let m := {\"k\": [event.state.id]}\n    m.k[0] := m.k[0] * 10\n    obs(m)",
+	"obs(len(concat([event.state.id], [1, 2])), type(event.state.id))",
+}
+
+func c11IsoRun(body string, withFirst bool) (obs []string, report string, fail string) {
+	var src strings.Builder
+	src.WriteString(c11IsoDefs)
+	fmt.Fprintf(&src, "sink s\n  kindmatch [\"k\"],\n  {\n    %s\n  }\n", body)
+	if withFirst {
+		src.WriteString("r1 := addEventAndWait(\"ev1\", \"k\", {\"id\": 1})\n")
+	}
+	src.WriteString("r2 := addEventAndWait(\"ev2\", \"k\", {\"id\": 2})\n")
+	var mu sync.Mutex
+	var all []string
+	var erpRef *interpreter.ECALRuntimeProvider
+	out := evalECAL(src.String(), evalOpts{budget: 200000, setup: func(vs parser.Scope, erp *interpreter.ECALRuntimeProvider) {
+		erpRef = erp
+		vs.SetValue("obs", &hfunc{func(args []interface{}) (interface{}, error) {
+			mu.Lock()
+			all = append(all, fmt.Sprint(args...))
+			mu.Unlock()
+			return nil, nil
+		}})
+	}})
+	if erpRef != nil {
+		erpRef.Processor.Finish()
+	}
+	if out.panicKey != "" || out.err != nil {
+		return nil, "", fmt.Sprintf("%v %v", out.panicKey, out.err)
+	}
+	r2, _, _ := out.vs.GetValue("r2")
+	n := 0
+	if withFirst {
+		// the first invocation's observations come first (addEventAndWait waited for it)
+		r1obs, _ := c11IsoCount(body)
+		n = r1obs
+	}
+	mu.Lock()
+	defer mu.Unlock()
+	if n > len(all) {
+		n = len(all)
+	}
+	return append([]string{}, all[n:]...), renderValue(r2), ""
+}
+
+// c11IsoCount: number of observations the first event alone produces.
+var c11IsoFirstCache = map[string]int{}
+
+func c11IsoCount(body string) (int, string) {
+	if n, ok := c11IsoFirstCache[body]; ok {
+		return n, ""
+	}
+	var src strings.Builder
+	src.WriteString(c11IsoDefs)
+	fmt.Fprintf(&src, "sink s\n  kindmatch [\"k\"],\n  {\n    %s\n  }\nr1 := addEventAndWait(\"ev1\", \"k\", {\"id\": 1})\n", body)
+	n := 0
+	var mu sync.Mutex
+	var erpRef *interpreter.ECALRuntimeProvider
+	out := evalECAL(src.String(), evalOpts{budget: 200000, setup: func(vs parser.Scope, erp *interpreter.ECALRuntimeProvider) {
+		erpRef = erp
+		vs.SetValue("obs", &hfunc{func(args []interface{}) (interface{}, error) {
+			mu.Lock()
+			n++
+			mu.Unlock()
+			return nil, nil
+		}})
+	}})
+	if erpRef != nil {
+		erpRef.Processor.Finish()
+	}
+	if out.panicKey != "" || out.err != nil {
+		return 0, fmt.Sprintf("%v %v", out.panicKey, out.err)
+	}
+	c11IsoFirstCache[body] = n
+	return n, ""
+}
+
+func renderValue(v interface{}) string {
+	switch x := v.(type) {
+	case map[interface{}]interface{}:
+		var ks []string
+		for k := range x {
+			ks = append(ks, fmt.Sprint(k))
+		}
+		sort.Strings(ks)
+		var b strings.Builder
+		b.WriteString("{")
+		for _, k := range ks {
+			for kk, vv := range x {
+				if fmt.Sprint(kk) == k {
+					b.WriteString(k + ":" + renderValue(vv) + " ")
+				}
+			}
+		}
+		b.WriteString("}")
+		return b.String()
+	case []interface{}:
+		var b strings.Builder
+		b.WriteString("[")
+		for _, e := range x {
+			b.WriteString(renderValue(e) + " ")
+		}
+		b.WriteString("]")
+		return b.String()
+	}
+	return fmt.Sprint(v)
+}
+
+func init() {
+	register(&Part{Prop: "C11", Name: "second-invocation-equals-first", Quick: 1, Thor: 1,
+		Desc: "15 sink bodies that write no global variable (functions with container / number defaults, closures created per invocation, object instantiation, interpolation of event data, raise with data and try/except, loops, like with a pattern built from event data, mutex, container literals): event 2 processed on a fresh interpreter and processed after event 1 must give the same observations and the same error report (type, detail, data) - everything else is state leaking from one invocation into the next",
+		Rule: "bodies x {alone, after another invocation}; every case non-trivial",
+		Run: func(c *Ctx) {
+			for _, body := range c11IsoBodies {
+				if !c.Mine() {
+					continue
+				}
+				c.Begin(body)
+				obsA, repA, f1 := c11IsoRun(body, false)
+				obsB, repB, f2 := c11IsoRun(body, true)
+				if f1 != "" || f2 != "" {
+					c.Viol("isolation corpus program fails", fmt.Sprintf("%s %s\n%s", f1, f2, body), body)
+					continue
+				}
+				c.Nontrivial()
+				if fmt.Sprint(obsA) != fmt.Sprint(obsB) {
+					c.Viol("invocation sees state of an earlier invocation", fmt.Sprintf("sink body:\n    %s\nevent 2 alone observes %v, event 2 after event 1 observes %v", body, obsA, obsB), body)
+					continue
+				}
+				if repA != repB {
+					c.Viol("error report depends on an earlier invocation", fmt.Sprintf("sink body:\n    %s\nevent 2 alone: %s\nevent 2 after event 1: %s", body, repA, repB), body)
+					continue
+				}
+				c.Outcome("same-observations")
+			}
+			c.Sample("sink body obs(withDefaults(event.state.id)) with func withDefaults(id, rec={}, l=[], n=0): same observations for event 2 alone and after event 1")
 		}})
 }
